@@ -112,6 +112,13 @@ theorem C04_envelope_rows (g : Goal) (n : Nat) (fs eps : List (List Rat))
     rw [div_mul_cancel₀ _ (ne_of_gt hnom)] at this
     linarith
 
+/-- non-vacuity of `C04_envelope_rows`: x ≥ 2 wanted on two steps (range (-10, 10), nominal 2), the
+    second step inactive (NaN): with f = (3, 4) and ε = (1/2, 0) every row is within its bounds -/
+example : ∀ r ∈ softRows { fk := "k", tmin := .series [[.fin 2, .nan]], rangeLo := [.fin (-10)],
+                           rangeHi := [.fin 10], rangeDefault := false, nominal := [2] }
+      2 [[3, 4]] [[1/2, 0]], r.lb ≤ EVal.fin r.val ∧ EVal.fin r.val ≤ r.ub := by
+  decide +kernel
+
 /-! ## inactive steps -/
 
 /-- **A step whose target is NaN or ±inf imposes nothing**: with the `∓float_max` sentinel the
@@ -243,6 +250,16 @@ example : validate {} true 2
      { fk := "k", priority := 1, tmin := .scalar (.fin 2), rangeLo := [.fin (-10)],
        rangeHi := [.fin 10], rangeDefault := false }]
     = some .monoMin := by decide
+
+/-- the well-formedness predicate is satisfiable (through the theorem) -/
+example : WellFormed {} true 3
+    [{ fk := "k", tmin := .scalar (.fin 2), rangeLo := [.fin (-10)], rangeHi := [.fin 10],
+       rangeDefault := false }] :=
+  (C04_validate_sound_complete {} true 3 _ (by
+      intro g hg
+      simp only [List.mem_cons, List.mem_nil_iff, or_false] at hg
+      subst hg
+      exact ⟨Or.inl rfl, Or.inl rfl⟩)).1 (by decide)
 
 /-! ## critical goals -/
 
